@@ -333,3 +333,61 @@ def replay_large(rp):
     print("expected (exact integer arithmetic on the factors):", rp["expected"])
     print("property holds on this case" if ok else "property failure: value")
     return 0 if ok else 1
+
+
+# ------------------------------------------------------------------------------------------ probes of defects found by reading
+
+def _kernel_covar(x1, x2, **kw):
+    w = torch.tensor([1.0, 2.0]).unsqueeze(-1) * torch.tensor([1.0, 10.0, 100.0]).unsqueeze(0)
+    return torch.kron(x1 @ x2.mT, w)
+
+
+def probe(name):
+    """-> (observed, expected) for one of the three hand-confirmed defects of HEAD 6cde240 (known findings C03-diag-float32-large-index,
+    C03-kernel-multi-output-col-index, C03-kron-diagonal-nonsquare-factors); each is a cheap, fixed input"""
+    import linear_operator.operators as O
+    if name == "diag-float32-large-index":
+        n = 2 ** 24 + 8
+        op = O.DiagLinearOperator(torch.full((n,), 2.0, dtype=torch.float32))
+        r = _run(lambda: op[torch.tensor([16777217, 5]), torch.tensor([16777216, 5])], False)
+        return r, torch.tensor([0.0, 2.0])
+    if name == "kernel-multi-output-col-index":
+        x1 = torch.tensor([[1.0, 0.0], [0.0, 1.0], [1.0, 1.0]])
+        x2 = torch.tensor([[1.0, 2.0], [3.0, 4.0], [5.0, 6.0], [7.0, 8.0]])
+        op = O.KernelLinearOperator(x1, x2, covar_func=_kernel_covar, num_outputs_per_input=(2, 3))
+        rows, cols = torch.tensor([0, 1, 4, 5, 3]), torch.tensor([0, 5, 7, 11, 9])
+        return _run(lambda: op[rows, cols], False), _kernel_covar(x1, x2)[rows, cols]
+    if name == "kron-diagonal-nonsquare-factors":
+        A, B = torch.arange(6.0).reshape(2, 3), torch.arange(6.0).reshape(3, 2) + 1
+        op = O.KroneckerProductLinearOperator(O.DenseLinearOperator(A), O.DenseLinearOperator(B))
+        return _run(lambda: op.diagonal(), False), torch.kron(A, B).diagonal()
+    raise ValueError(name)
+
+
+PROBES = ("diag-float32-large-index", "kernel-multi-output-col-index", "kron-diagonal-nonsquare-factors")
+
+
+def stage_probes(ctx):
+    stats = {"probe_failures": []}
+    for name in PROBES:
+        try:
+            r, exp = probe(name)
+        except MemoryError:
+            continue
+        ok = r[0] == "ok" and r[1].shape == exp.shape and torch.equal(r[1].to(torch.float64), exp.to(torch.float64))
+        if ok:
+            continue
+        stats["probe_failures"].append(name)
+        ctx.violation({"kind": "probe-differs-from-dense", "layer": "L4-probe", "probe": name, "observed": obs(r),
+                       "expected": [float(v) for v in exp.reshape(-1).tolist()]}, key={"op": "probe", "probe": name})
+    return stats
+
+
+def replay_probe(rp):
+    r, exp = probe(rp["probe"])
+    ok = r[0] == "ok" and r[1].shape == exp.shape and torch.equal(r[1].to(torch.float64), exp.to(torch.float64))
+    print("probe:", rp["probe"])
+    print("observed:", obs(r))
+    print("expected:", [float(v) for v in exp.reshape(-1).tolist()])
+    print("property holds on this case" if ok else "property failure")
+    return 0 if ok else 1
